@@ -54,7 +54,7 @@ def emit_and_replay(ctx, module, cfg, env, label, probe_every, tag="POS", timeou
     for p in parts:
         if os.path.exists(p):
             os.remove(p)
-    drift = tot["counts"].get("drift_entries", 0) + tot["counts"].get("drift_pins", 0)
+    drift = tot["counts"].get("drift_entries", 0) + tot["counts"].get("drift_pins", 0) + tot["counts"].get("drift_checkers", 0)
     ctx.cov["model_drift"] += drift
     if drift:
         ctx.note("%s: layer S disagrees with the implementation on %d positions (entry list / pin set): model drift, not a violation" % (label, drift))
